@@ -59,7 +59,11 @@ Definition gstep (s : dstate) (o : gop) : dstate * fired * res :=
   | GCall a =>
     let '(w', f, r) := stepf (dwheel s) a in
     match a with
-    | ADrain => (mkD w' (dflight s) (dreleased s), f, r)      (* Drain's callbacks are not gated *)
+    | ADrain =>
+      (* drainAll hands every task to a runner of its own goroutines: all of them start;
+         a held one stays parked as a batch of one *)
+      (mkD w' (dflight s ++ map (fun x => [x]) (filter (fun x => held (dreleased s) (snd x)) f))
+           (dreleased s), f, r)
     | _ =>
       let '(d, rest) := run_batch (dreleased s) f in
       (mkD w' (dflight s ++ opt_list rest) (dreleased s), d, r)
@@ -88,6 +92,46 @@ Fixpoint gfired (w : W) (ops : list gop) : list fired :=
   | [] => []
   | GCall a :: ops' => let '(w', f, _) := stepf w a in f :: gfired w' ops'
   | GRelease _ :: ops' => [] :: gfired w ops'
+  end.
+
+(* Re-entrancy: a callback may call back into the wheel.  [react] maps a delivered
+   (key, value) to the call its callback makes when it runs (values that react are not
+   held; callbacks run by Drain do not react).  The calls of one step are made one after
+   the other, in the order of the deliveries; each is an ordinary step of the layer. *)
+Variable react : Z * Z -> option aop.
+
+Fixpoint react_all (s : dstate) (d : fired) : dstate * fired * list aop :=
+  match d with
+  | [] => (s, [], [])
+  | x :: d' =>
+    match react x with
+    | Some a =>
+      let '(s1, d1, _) := gstep s (GCall a) in
+      let '(s2, d2, e) := react_all s1 d' in
+      (s2, d1 ++ d2, a :: e)
+    | None => react_all s d'
+    end
+  end.
+
+Definition is_drain (o : gop) : bool := match o with GCall ADrain => true | _ => false end.
+
+(* one step with the calls made by its callbacks: deliveries, result, the calls made *)
+Definition rstep (s : dstate) (o : gop) : dstate * fired * res * list aop :=
+  let '(s1, d, r) := gstep s o in
+  if is_drain o then (s1, d, r, [])
+  else let '(s2, d2, e) := react_all s1 d in (s2, d ++ d2, r, e).
+
+Fixpoint rrun (s : dstate) (ops : list gop) : list (fired * res * list aop) :=
+  match ops with
+  | [] => []
+  | o :: ops' => let '(s', d, r, e) := rstep s o in (d, r, e) :: rrun s' ops'
+  end.
+
+(* the history as the wheel saw it: every operation followed by the calls its callbacks made *)
+Fixpoint effective (s : dstate) (ops : list gop) : list gop :=
+  match ops with
+  | [] => []
+  | o :: ops' => let '(s', _, _, e) := rstep s o in o :: map GCall e ++ effective s' ops'
   end.
 
 (* tasks of the batches in flight that have not been started yet *)
